@@ -28,7 +28,7 @@ def pick(ctx, res, n, rnd):
 
 def validate(ctx, path, stage):
     return ctx.tlc("MetaJournalTrace", "MetaJournalTrace.cfg", workers=1, files={"trace.ndjson": path},
-                   timeout=2400, heap="2g", name=stage, expect_violation=True, keep_beh=False)
+                   timeout=7200, heap="2g", name=stage, expect_violation=True, keep_beh=False)
 
 
 def run(ctx):
@@ -51,12 +51,12 @@ def run(ctx):
                ("orig-names", "MetaJournal_orig_big.cfg" if th else "MetaJournal_orig.cfg", None),
                ("orig-rebuild", "MetaJournal_orig_rebuild.cfg", None),
                ("orig-skip", "MetaJournal_stale_big.cfg" if th else "MetaJournal_stale.cfg", None),
-               ("sim", "MetaJournal_sim.cfg", (300 if th else 15, 31))]
+               ("sim", "MetaJournal_sim.cfg", (100 if th else 15, 31))]
     w = 4
     with ThreadPoolExecutor(max_workers=4) as ex:
-        fm = [ex.submit(ctx.tlc, "MetaJournalMC", cfg, workers=w, timeout=3000 if th else 900, name=what, heap="6g" if th else "3g")
+        fm = [ex.submit(ctx.tlc, "MetaJournalMC", cfg, workers=w, timeout=7200 if th else 1800, name=what, heap="6g" if th else "3g")
               for cfg, what in mcs]
-        fe = {k: ex.submit(ctx.tlc, "MetaJournalMC", cfg, workers=w, timeout=1500, simulate=simu,
+        fe = {k: ex.submit(ctx.tlc, "MetaJournalMC", cfg, workers=w, timeout=7200 if th else 1800, simulate=simu,
                            name="history export (%s)" % k, heap="4g" if th else "2g") for k, cfg, simu in exports}
         for (cfg, what), f in zip(mcs, fm):
             ctx.require_model_ok(f.result(), "MetaJournal invariants (%s)" % cfg)
@@ -69,15 +69,15 @@ def run(ctx):
             raise Infra("the transcription of the pinned code (%s) no longer yields counterexamples" % k)
     directed = (pick(ctx, exp["orig-names"], 3000 if th else 100, rnd) + pick(ctx, exp["orig-skip"], 1000 if th else 40, rnd)
                 + [b for b in exp["orig-rebuild"].behaviours if any(st.get("e", {}).get("t") == "G" for st in b)])
-    long_b = pick(ctx, exp["sim"], 500 if th else 40, rnd)
-    behs = pick(ctx, exp["names"], 2000 if th else 200, rnd) + pick(ctx, exp["chain"], 2000 if th else 150, rnd)
+    long_b = pick(ctx, exp["sim"], 300 if th else 40, rnd)
+    behs = pick(ctx, exp["names"], 1500 if th else 200, rnd) + pick(ctx, exp["chain"], 1500 if th else 150, rnd)
     nexp = len(behs)
     behs += directed + long_b
     ctx.log("histories: %d exported, %d defect-directed, %d simulated" % (nexp, len(directed), len(long_b)))
     # 3. the real code
     nfiles = 8
     res, out, rc = ctx.go_test("internal/metajournal", "TestVerifC20", inp=behs,
-                               env={"VERIF_NRANDOM": 600 if th else 60, "VERIF_NFILES": nfiles}, timeout=1800)
+                               env={"VERIF_NRANDOM": 400 if th else 60, "VERIF_NFILES": nfiles}, timeout=1800)
     res = ctx.need_result(res, out, rc, "TestVerifC20")
     consts = res.get("consts", {})
     if consts.get("BuiltinGroupIDDefault") != -4:
